@@ -20,6 +20,7 @@ VALUE_POOL = [
     [1, 2], [2, 1], [1], [], {}, None, {"k": 1}, {"k": [1]}, {"k": 1, "j": "a"}, {"j": 2},
     DT(2020, 1, 2, 3, 4, 5), DT(2020, 1, 2, 3, 4, 6), b"ab", b"", [1, [2, "a"]], [True], [1.0],
     2 ** 61 - 1, 2 ** 61, 1.5, "a b", {"k": {"z": None}}, [None], ["a", None],
+    {"k": None}, {"k": 1, "j": None}, [{"k": None}],
 ]
 INT_KEYS = [1, 2, 3, -1, -2, 0, 2 ** 61 - 1]
 STR_KEYS = ["a", "b", "c", "A"]
@@ -29,6 +30,45 @@ def rnd_value(rng, simple=False):
     if simple:
         return rng.choice([1, 2, "a", "b", True, 1.0, [1, 2], [2, 1], None])
     return copy.deepcopy(rng.choice(VALUE_POOL))
+
+
+LOOKALIKES = [[1, True, 1.0, "1"], [0, False, 0.0, ""], [-1, -2], [2 ** 61 - 1, 2 ** 61], ["a", "b", "a b", b"ab"],
+              [DT(2020, 1, 2, 3, 4, 5), DT(2020, 1, 2, 3, 4, 6)], [None, [], {}, [None]]]
+
+
+def near_value(rng, v):
+    """a structural neighbour of v: one key of a dict renamed (value kept), one nested value
+    nulled or replaced by a look-alike, list items swapped / one replaced, a scalar replaced by a
+    value that compares or hashes alike - the changes a shortcut in the comparison would miss"""
+    v = copy.deepcopy(v)
+    if isinstance(v, dict) and v:
+        k = rng.choice(sorted(v))
+        r = rng.random()
+        if r < 0.35:
+            nk = rng.choice([x for x in ("k", "j", "z", "y") if x not in v] or ["w"])
+            v[nk] = v.pop(k)
+        elif r < 0.55:
+            v[k] = None
+        elif r < 0.7:
+            v[rng.choice([x for x in ("k", "j", "z", "y") if x not in v] or ["w"])] = None
+        else:
+            v[k] = near_value(rng, v[k])
+        return v
+    if isinstance(v, list) and v:
+        r = rng.random()
+        if r < 0.3 and len(v) > 1:
+            v.reverse()
+        elif r < 0.5:
+            v.append(None)
+        else:
+            i = rng.randrange(len(v))
+            v[i] = near_value(rng, v[i])
+        return v
+    for fam in LOOKALIKES:
+        for x in fam:
+            if type(x) is type(v) and x == v:
+                return copy.deepcopy(rng.choice([y for y in fam if not (type(y) is type(v) and y == v)]))
+    return rnd_value(rng)
 
 
 # ---------------------------------------------------------------------------------------
@@ -131,7 +171,8 @@ def gen_rows(rng, cfg, pool, prev=None, parents_ok=0.9):
                 if rng.random() < 0.5:   # mutate a little
                     for a in t["attrs"]:
                         if a not in t["pkey"] and rng.random() < 0.4:
-                            row[a] = rnd_value(rng)
+                            # a fresh value, or a structural neighbour of the current one
+                            row[a] = near_value(rng, row.get(a)) if rng.random() < 0.4 else rnd_value(rng)
             else:
                 row = {a: rnd_value(rng) for a in t["attrs"] if a not in t["pkey"]}
                 if len(t["pkey"]) == 1:
